@@ -718,6 +718,19 @@ func (p *pp) printArg(arg interface{}, verb rune) {
 	p.arg = arg
 	p.value = reflect.Value{}
 
+	if verb == 'w' && p.wrapErrs {
+		// CUSTOM: it is invalid to use %w with a non-error arg. Operands
+		// of the basic kinds (and nil) never reach handleMethods, which
+		// is where that misuse cancels error wrapping; do it here so that
+		// it does not depend on the operand's type.
+		if _, isValue := arg.(reflect.Value); !isValue {
+			if _, ok := arg.(error); !ok {
+				p.wrappedErr = nil
+				p.wrapErrs = false
+			}
+		}
+	}
+
 	if arg == nil {
 		switch verb {
 		case 'T', 'v':
